@@ -205,7 +205,7 @@ def gen_builder(rng, tier):
     # every ordered pair of setters (legal values), the media set first or last
     for a, b in itertools.product(names, names):
         ops = [[a, legal_value(a)], [b, legal_value(b) if b != a else rand_value(b, rng)]]
-        if rng.random() < 0.5:
+        if rng.random() < 0.5 and 'clear' not in (a, b):
             cases.append({'kind': 'b', 'ops': [['media', rng.choice(['udp', 'ipc'])]] + ops})
         else:
             cases.append({'kind': 'b', 'ops': ops + [['media', rng.choice(['udp', 'ipc'])]]})
